@@ -63,7 +63,7 @@ PROPS = {
         partial=["C02_priority (refinement tree -> outcomes) not proved"]),
     "C03": rt(350, 6000, ["remove", "clean"],
         "histories of 1-14 mutations (40% Remove/Clean, facades, >=5 literal siblings) with state dump, Routes() and one simple witness per pool pattern after every step",
-        props=["C03", "C03find", "C03lit"],
+        props=["C03", "C03find", "C03lit", "C03frame", "C03gone", "C03witness"],
         level_text="At tree level, every reachable tree: C03_find_sound / C03_find_complete (the lookup used by Remove, URL and the duplicate check finds a node spelling the pattern iff one exists), C03_add_registers (an accepted Handle leaves a node with that pattern carrying the methods, OPTIONS and the 405 handler), C03_remove_effect / C03_remove_others_kept (Remove changes exactly the one node it looked up; every other node keeps pattern, handlers and method set), C03_remove_all_clears_partial, C03_absent_not_found; C03_pattern_once_refuted: with literal text containing unbalanced braces two nodes can spell the same pattern (outside the well-formed quantifier). On the abstract route table (C03_remove_frame, C03_remove_all, C03_clean_exact, C03_handle_frame, C03_use_keeps_routes): removal touches exactly the named pattern, Clean(prefix) exactly the patterns with that prefix. Routes()/dispatch of the implementation are compared with this table after every step, with the documented resolver deciding the winner on simple witnesses, and earlier dispatches are re-checked after removals (frame).",
         level_note="partial: the refinement tree-state -> table (abs commutes with add/remove/clean) is checked by the dump correspondence and the oracles on every step, not proved.",
         partial=["C03_refinement (abs_tree (step t op) = table_step (abs_tree t) op) not proved"]),
